@@ -75,6 +75,8 @@ def run(tier, seed, replay=None):
             cases = pinned + cases
         samples = sorted(f for f in os.listdir(samples_dir) if f.endswith(".nif"))
         scases = ["save3 name=%s opts=%s" % (f, o) for f in samples for o in ("raw", "default")]
+        # edited models: positions / texture coordinates set through the API to values no binary16 holds exactly
+        scases += ["save3 name=%s opts=%s perturb=1" % (f, o) for f in samples for o in ("raw", "default")]
         # edited models: one child reference emptied (a sub-tree becomes unreferenced), then three default saves
         erng = random.Random(seed * 7919 + 13)
         nedit = 3 if tier == "quick" else 25
